@@ -233,6 +233,20 @@ class C16Engine(Engine):
                                 fail("help/parameter-not-described", f"{cmd} {h}: {o}")
                     if name in docs and norm(docs[name]) not in text:
                         fail("help/member-docstring-line-missing", f"{cmd} {h}: {docs[name]!r}")
+            # properties of the shipped classes really are available: the getter's reply is the value, pool-size can be assigned
+            for prop in ("is_locked", "num_running", "num_cancelled", "num_ended", "is_full", "pool_size") + (("func_name",) if case["base"] == "SimpleTaskPool" else ()):
+                r = await s.command(prop.replace("_", "-"))
+                if len(r) != 1 or r[0].decode().strip() != str(getattr(pool, prop)):
+                    fail("call/property-command", f"{prop}: {r!r}, expected {getattr(pool, prop)!r}")
+            for v in (3, 0, 7):
+                r = await s.command(f"pool-size {v}")
+                r2 = await s.command("pool-size")
+                if [x.decode().strip() for x in r + r2] != ["ok", str(v)] or pool.pool_size != v:
+                    fail("call/pool-size-assignment", f"pool-size {v}: {r!r} then {r2!r}, pool says {pool.pool_size!r}")
+            for cmd_, want_ in (("lock", "ok"), ("is-locked", "True"), ("unlock", "ok"), ("is-locked", "False")):
+                r = await s.command(cmd_)
+                if len(r) != 1 or r[0].decode().strip() != want_:
+                    fail("call/lock-unlock-command", f"{cmd_}: {r!r}")
             # generated members really are callable through their command
             sfx = case.get("suffix", "")
             calls = {"extra_count": ("extra-count{s} 4 --label z", "4z"), "toggle_thing": ("toggle-thing{s} --fast", "True"),
